@@ -174,3 +174,46 @@ pub fn run_codeops(seed: u64, tier: &str, filter: &str, out: &mut dyn FnMut(Stri
         }
     }
 }
+
+/// C09: element-wise vector instructions on an exhaustive grid of length pairs and offsets
+pub fn run_vecgrid(seed: u64, tier: &str, out: &mut dyn FnMut(String)) {
+    use crate::gen::{gen_float, gen_int};
+    use pushr::push::vector::{BoolVector, FloatVector, IntVector};
+    let names = ["BOOLVECTOR.AND", "BOOLVECTOR.OR", "BOOLVECTOR.NOT", "INTVECTOR.+", "INTVECTOR.-", "FLOATVECTOR.+",
+        "FLOATVECTOR.-", "FLOATVECTOR.*", "FLOATVECTOR./"];
+    let maxlen = if tier == "thorough" { 9 } else { 6 };
+    let mut iset = make_iset(false);
+    let mut case = 0u64;
+    for name in names.iter() {
+        for la in 0..=maxlen {
+            for lb in 0..=maxlen {
+                let mut offs: Vec<i32> = (-(maxlen as i32) - 2..=(maxlen as i32) + 2).collect();
+                offs.extend_from_slice(&[i32::MIN, i32::MIN + 1, i32::MAX - 1, i32::MAX]);
+                for off in offs {
+                    case += 1;
+                    let mut r = Rng::for_case(seed, "vecgrid", case);
+                    let mut st = PushState::new();
+                    st.int_stack.push(77);
+                    st.int_stack.push(off);
+                    match &name[..4] {
+                        "BOOL" => {
+                            st.bool_vector_stack.push(BoolVector::new((0..la).map(|_| r.chance(1, 2)).collect()));
+                            st.bool_vector_stack.push(BoolVector::new((0..lb).map(|_| r.chance(1, 2)).collect()));
+                        }
+                        "INTV" => {
+                            st.int_vector_stack.push(IntVector::new((0..la).map(|_| gen_int(&mut r)).collect()));
+                            st.int_vector_stack.push(IntVector::new((0..lb).map(|_| gen_int(&mut r)).collect()));
+                        }
+                        _ => {
+                            st.float_vector_stack.push(FloatVector::new((0..la).map(|_| gen_float(&mut r)).collect()));
+                            st.float_vector_stack.push(FloatVector::new(
+                                (0..lb).map(|_| if r.chance(1, 6) { 0.0 } else { gen_float(&mut r) }).collect(),
+                            ));
+                        }
+                    }
+                    out(observe_exec(&mut iset, name, st));
+                }
+            }
+        }
+    }
+}
